@@ -34,13 +34,10 @@ MUTANTS = [
     # ---------------- C01
     {'id': 'c01-tail-off-by-one', 'props': ['C01'], 'what': 'accepted rows written one slot before the tail',
      'edits': [(SA, "                v[-num_accepted:] = batch[node][accepted]", "                v[-num_accepted - 1:-1] = batch[node][accepted]")]},
-    {'id': 'c01-stable-sort-payload', 'props': ['C01'], 'what': 'payload outputs sorted with a stable argsort, discrepancy with quicksort: rows misalign on ties',
-     'edits': [(SA, "        for k, v in samples.items():\n            v[:] = v[sort_mask]",
-                "        stable_mask = np.argsort(sort_distance, kind='stable')\n        for k, v in samples.items():\n            v[:] = v[sort_mask] if k == self.discrepancy_name else v[stable_mask]")]},
+    {'id': 'c01-buffer-short', 'props': ['C01'], 'what': 'result buffer one row short: a fully accepted batch overwrites the current n-th best draw',
+     'edits': [(SA, "            shape = (self.objective['n_samples'] +\n                     self.batch_size, ) + nbatch.shape[1:]", "            shape = (self.objective['n_samples'] +\n                     self.batch_size - 1, ) + nbatch.shape[1:]")]},
     {'id': 'c01-extract-plus-one', 'props': ['C01'], 'what': 'extract_result slices n_samples+1 rows',
      'edits': [(SA, "            outputs[k] = v[:self.objective['n_samples']]\n\n        return Sample(", "            outputs[k] = v[:self.objective['n_samples'] + 1]\n\n        return Sample(")]},
-    {'id': 'c01-strict-threshold', 'props': ['C01'], 'what': '< instead of <= against the threshold when accepting',
-     'edits': [(SA, "            accepted = batch[self.discrepancy_name] <= self.objective.get('threshold')", "            accepted = batch[self.discrepancy_name] < self.objective.get('threshold')")]},
     {'id': 'c01-budget-floor', 'props': ['C01'], 'what': 'budget converted to batches with floor instead of ceil',
      'edits': [(SA, "        if n_sim:\n            n_batches = ceil(n_sim / self.batch_size)", "        if n_sim:\n            n_batches = max(1, n_sim // self.batch_size)")]},
     {'id': 'c01-threshold-off', 'props': ['C01'], 'what': 'reported threshold taken one row too early',
@@ -58,4 +55,31 @@ MUTANTS = [
      'edits': [(SA, "                                    prior_logpdf=self._prior.logpdf,\n", "                                    prior_logpdf=None,\n")]},
     {'id': 'c07-unweighted-quantile', 'props': ['C07'], 'what': 'round threshold from the un-weighted quantile',
      'edits': [(SA, "            weights=previous_population.weights)", "            weights=None)")]},
+    # ---------------- C06
+    {'id': 'c06-header-before-data', 'props': ['C06'], 'what': 'append writes the new header before the data',
+     'edits': [('elfi/store.py', "        pos = self.header_length + self.size * self.itemsize\n        self.fs.seek(pos)\n        self.fs.write(array.tobytes('C'))\n        self.shape = (self.shape[0] + len(array), ) + self.shape[1:]\n\n        # Only prepare the header bytes, need to be flushed to take effect\n        self._prepare_header_data()\n",
+                "        pos = self.header_length + self.size * self.itemsize\n        self.shape = (self.shape[0] + len(array), ) + self.shape[1:]\n        self._prepare_header_data()\n        self._write_header_data()\n        self.fs.seek(pos)\n        self.fs.write(array.tobytes('C'))\n")]},
+    {'id': 'c06-flush-no-header', 'props': ['C06'], 'what': 'flush does not write the pending header',
+     'edits': [('elfi/store.py', '        """Flush any changes in memory to array."""\n        self._write_header_data()\n        self.fs.flush()', '        """Flush any changes in memory to array."""\n        self.fs.flush()')]},
+    {'id': 'c06-getstate-no-flush', 'props': ['C06'], 'what': '__getstate__ does not flush before pickling',
+     'edits': [('elfi/store.py', "        if not self.fs.closed:\n            self.flush()\n        return {'filename': self.filename}", "        return {'filename': self.filename}")]},
+    {'id': 'c06-header-no-padding', 'props': ['C06'], 'what': 'header rewritten without padding to the fixed length',
+     'edits': [('elfi/store.py', "        elif fill_len > 0:\n            h_bytes.write(b'\\x20' * fill_len)", "        elif fill_len > 0:\n            pass")]},
+    {'id': 'c06-delete-one-too-many', 'props': ['C06'], 'what': 'NpyStore.__delitem__ truncates one batch too many',
+     'edits': [('elfi/store.py', "        self.array.truncate(sl.start)", "        self.array.truncate(max(0, sl.start - self.batch_size))")]},
+    {'id': 'c06-append-stale-memmap', 'props': ['C06'], 'what': 'append does not invalidate the memmap',
+     'edits': [('elfi/store.py', "        self._prepare_header_data()\n\n        # Invalidate the memmap\n        self._memmap = None\n\n    @property\n    def memmap", "        self._prepare_header_data()\n\n    @property\n    def memmap")]},
+    {'id': 'c06-close-no-header', 'props': ['C06'], 'what': 'close does not write the pending header',
+     'edits': [('elfi/store.py', "        if self.initialized:\n            self._write_header_data()\n            self.fs.close()", "        if self.initialized:\n            self.fs.close()")]},
+    # ---------------- C15
+    {'id': 'c15-first-draw', 'props': ['C15'], 'what': 'get_sub_seed returns the first draw of the last batch',
+     'edits': [('elfi/utils.py', "    return sub_seeds[-1]", "    return sub_seeds[0]")]},
+    {'id': 'c15-resume-at-equal', 'props': ['C15'], 'what': 'cache resumed when it already holds index+1 values',
+     'edits': [('elfi/utils.py', "    if cache and len(cache['seen']) < sub_seed_index + 1:", "    if cache and len(cache['seen']) <= sub_seed_index + 1:")]},
+    {'id': 'c15-no-dedupe', 'props': ['C15'], 'what': 'duplicates in the draw stream are not skipped',
+     'edits': [('elfi/utils.py', "        seen.update(sub_seeds)\n        n_unique = len(seen)", "        seen.update(sub_seeds)\n        n_unique += len(sub_seeds)")]},
+    {'id': 'c15-range-off-by-one', 'props': ['C15'], 'what': 'index == high is not rejected',
+     'edits': [('elfi/utils.py', "    elif sub_seed_index >= high:", "    elif sub_seed_index > high:")]},
+    {'id': 'c15-cache-state-shared', 'props': ['C15'], 'what': 'cache keeps the generator but forgets the seen set on restart',
+     'edits': [('elfi/utils.py', "        random_state = np.random.RandomState(seed)\n        seen = set()", "        random_state = np.random.RandomState(seed)\n        seen = cache['seen'] if cache and 'seen' in cache else set()")]},
 ]
